@@ -97,9 +97,10 @@ CHECKS = {
               "checking exception, directory contents, root logger handlers, stdout, and the next request's outcome."),
         design="DESIGN.md §6 C15, App. B"),
     "C16": dict(
-        technique="Lean 4 proof (formatter → lexer → parser round trip for every expression tree; literal exactness) + exact-text correspondence + independent parsers (pycparser, Python ast)",
-        text=("roundtrip_C (every well-formed expression tree: parse(lex(format e)) = erase(norm e)), lex_render, separated_pieces, parse_mono_all, norm_eval, local_faithful(_py) over the regenerated precedence table, "
-              "literal round-trip theorems on exact rationals; statements and the numba grammar are proved partially (named *_partial) and covered by execution. The Lean transcriptions of both formatters are compared "
+        technique="Lean 4 proof (formatter → lexer → parser round trip for every well-formed expression AND statement tree, C and Python grammars; literal exactness) + exact-text correspondence + independent parsers (pycparser, Python ast)",
+        text=("roundtrip_C, roundtrip_stmt_C, roundtrip_Py, roundtrip_stmt_Py (every well-formed tree: parse(lex(format t)) = erase t — operator nesting, operands, subscripts, loop bounds, declarations, INDENT/DEDENT), no_token_fusion(_py), "
+              "format_C_total, norm_eval, local_faithful(_py) over the regenerated precedence table, literal_readback_exact / literal_exact_17 on exact rationals; counterexamples show each well-formedness hypothesis is needed and the hypotheses are "
+              "evaluated on every real kernel statement. The Lean transcriptions of both formatters are compared "
               "as exact text with the real ones on all depth-2 parent/child/position trees, seeded deep trees and every statement of real kernels; the real output is re-parsed with pycparser / ast and compared structurally and by value."),
         design="DESIGN.md §6 C16"),
     "C17": dict(
